@@ -198,7 +198,7 @@ def build_pool(rng, nprng, focus):
     from orquestra.quantum.measurements import Measurements
     from orquestra.quantum.wavefunction import Wavefunction
 
-    pool = {k: [] for k in ("circ", "scirc", "gate", "term", "sum", "ising", "meas", "dist", "wf", "state", "map",
+    pool = {k: [] for k in ("circ", "pcirc", "scirc", "gate", "term", "sum", "ising", "meas", "dist", "wf", "state", "map",
                             "opdict")}
     syms = [sympy.Symbol(s) for s in ("theta", "phi", "alpha")]
     for _ in range(5):
@@ -206,6 +206,18 @@ def build_pool(rng, nprng, focus):
         c, _d, _i = GC.rand_circuit(rng, nprng, n, rng.randint(0, 5), allow_u3=False, wrap=0.3, custom=0.1)
         pool["circ"].append(c)
     pool["circ"].append(Circuit())
+    # circuits with phase-only (non-gate) operations, also in FIRST position: the first operation of a circuit
+    # is the only one that sees the caller's own initial-state array
+    from orquestra.quantum.circuits import MultiPhaseOperation
+
+    for first in (True, False):
+        n = rng.randint(1, 3)
+        c, _d, _i = GC.rand_circuit(rng, nprng, n, rng.randint(1, 3), allow_u3=False, wrap=0.2, custom=0,
+                                    n_qubits_explicit=True)
+        mp = MultiPhaseOperation(tuple(round(rng.uniform(-3, 3), 4) for _ in range(2**n)))
+        ops = list(c.operations)
+        ops.insert(0 if first else rng.randint(1, len(ops)), mp)
+        pool["pcirc"].append(Circuit(ops, n_qubits=n))
     for _ in range(3):
         n = rng.randint(1, 3)
         c, _d, _i = GC.rand_circuit(rng, nprng, n, rng.randint(1, 4), symbolic=True, symbols=syms, allow_u3=False,
@@ -331,6 +343,11 @@ def catalogue():
         "sim.run_and_measure": (["circ"], lambda r, c: SymbolicSimulator(seed=7).run_and_measure(c, 20), "meas"),
         "sim.distribution": (["circ"], lambda r, c: SymbolicSimulator(seed=7).get_measurement_outcome_distribution(c), None),
         "stepwise-apply": (["circ", "state"], apply_ops, None),
+        "sim.get_wavefunction(phase-circuit)": (["pcirc", "state"], sim_wf, None),
+        "sim.get_wavefunction(phase-circuit, wf.amplitudes)": (["pcirc", "wf"], lambda r, c, w: sim_wf(r, c, w.amplitudes), None),
+        "stepwise-apply(phase-circuit)": (["pcirc", "state"], apply_ops, None),
+        "first-operation.apply": (["pcirc", "state"], lambda r, c, v: c.operations[0].apply(v), None),
+        "phase-circuit.bind": (["pcirc", "map"], lambda r, c, m: c.bind(m), None),
         "gate.matrix": (["gate"], lambda r, g: g.matrix, None),
         "gate.dagger": (["gate"], lambda r, g: g.dagger, "gate"),
         "gate.controlled": (["gate"], lambda r, g: g.controlled(1), None),
@@ -404,7 +421,7 @@ def catalogue():
 FOCUS = {
     "mixed": None,
     "circuits": ("circuit", "scircuit", "to_dict", "json", "save_circuit", "to_unitary", "free_symbols", "sim.",
-                 "stepwise", "gate", "collect"),
+                 "stepwise", "gate", "collect", "first-operation", "phase-circuit"),
     "operators": ("term", "sum", "scalar", "hash", "repr", "hermitian", "convert", "save_operator", "get_sparse",
                   "reverse", "get_expectation_value", "is_hermitian"),
     "measurements": ("meas", "dist", "get_parities", "compute_mmd", "clipped", "jsd", "wf", "flip", "sample"),
@@ -433,10 +450,13 @@ def run_case(ctx):
         if any(not pool[k] for k in kinds):
             continue
         operands = [rng.choice(pool[k]) for k in kinds]
-        if name == "sim.get_wavefunction" or name == "stepwise-apply":
+        if kinds[-1] in ("state", "wf") and kinds[0] in ("circ", "pcirc") and len(kinds) == 2:
             c = operands[0]
-            match = [s for s in pool["state"] if len(s) == 2**c.n_qubits]
-            operands[1] = rng.choice(match) if match else (None if name == "sim.get_wavefunction" else operands[1])
+            match = [s for s in pool[kinds[-1]] if len(s) == 2**c.n_qubits]
+            if match:
+                operands[1] = rng.choice(match)
+            elif name == "sim.get_wavefunction":
+                operands[1] = None
         if len(operands) == 2 and operands[0] is operands[1]:
             aliased += 1
         st = rng.getstate()
